@@ -293,9 +293,12 @@ def gen_model(seed, nns=None, allow_cr=False, with_methods=True,
     for a in range(nassoc):
         nrefs = r.choice([2, 2, 2, 3])
         props = []
+        third_key = r.random() < 0.5
         for k in range(nrefs):
             props.append({'name': ['Ante', 'Dep', 'Third'][k],
-                          'type': 'reference', 'key': True, 'array': False,
+                          'type': 'reference',
+                          'key': True if k < 2 else third_key,
+                          'array': False,
                           'ref': r.choice(roots)['name']})
         if r.random() < 0.4:
             props.append({'name': 'Weight', 'type': 'uint16', 'key': False,
